@@ -13,6 +13,7 @@ RULE = ("bounded-exhaustive enumeration: mpz_powm/powm_ui over base x exponent x
         "larger than m, negative); sizes around REDC_1_TO_REDC_N and POWM thresholds; same under the run-time-threshold floor vector. "
         "mpz_pow_ui/ui_pow_ui: base alphabet x e=0..200. Oracle: Python pow. distinct_nontrivial = distinct (function, configuration, "
         "modulus size/family, exponent class, base class) tuples.")
+RULE = RULE + (" " + 'Later additions: moduli of 99..385 limbs on both sides of 64k+1 above 256 (REDC-n wrap-around sizes) with the structured families B^n-B+-1, B^n-B^2+1.')
 ASSUMPTIONS = ["Python pow(b,e,m) and ** are the reference model", "zero modulus and non-invertible bases with negative exponent are outside the assertable domain (documented trap)"]
 BUDGET = {"quick": 420, "thorough": 3300}
 M, H = al.M, al.H
